@@ -197,6 +197,7 @@ def run_one(it):
     s = simrt.run(main, seed=it["seed"], policy=it["policy"], switch_prob=0.15, max_vtime=1e5, wall_timeout=600,
                   line_funcs=[tc.TcpConnection._start_receiver, tc.TcpConnection.disconnect], line_cost=1e-3,
                   pct_depth=3, pct_horizon=3000,
+                  line_lag=((secsgem.gem.GemHandler.enable, secsgem.gem.GemHandler.disable), 0.6, 0.05) if it.get("lag") == "enable" else None,
                   wake_lag={"select": (("secsgem_hsmsProtocol_sendSelectReqThread",), 1.0, 0.05),
                             "app": (("hostapp_", "secsgem_gemHandler", "secsgem_hsmsProtocol"), 0.3, 0.05)}.get(it.get("lag")))
     simsock.set_net(None)
@@ -229,7 +230,7 @@ def run(ctx: Ctx):
                         items.append({"id": tid, "active": active, "order": order, "cap": cap, "cycles": cycles, "latency": 0,
                                       "cut": rng.choice([None, 3, 7, 11, 14, 20]) if cycles != ["E", "H"] else None,
                                       "seed": rng.randrange(1 << 30), "policy": rng.choice(["fifo", "random", "pct"]),
-                                      "lag": [None, "select", "app"][tid % 3]})
+                                      "lag": [None, "select", "app", "enable"][tid % 4]})
     recs = [r_ for batch in pmap(run_batch, chunks(items, 32)) for r_ in batch]
     for r_ in recs:
         if r_.get("errors") and "Machinery" in str(r_["errors"]):
@@ -262,7 +263,8 @@ def run(ctx: Ctx):
                                     + (f": {bad}" if bad else f" comm={r_['comm']}")))
     ctx.rule = ("sessions = {host active, equipment active} x {host first, equipment first} x receive buffer {64 KiB, 64 B} x "
                 "disable/enable cycles {none, host, equipment, both} x thread schedule (fifo / random / PCT, optionally with wake-up latency "
-                "of the select thread or of application / protocol helper threads); each session: 21 host calls compared with the "
+                "of the select thread or of application / protocol helper threads, or the enabling thread descheduled between the "
+                "statements of enable() / disable()); each session: 21 host calls compared with the "
                 "equipment's tables, 2 collection events, remote command; non-trivial = distinct configurations that completed a session")
     ctx.assumptions += ["link latency is zero in these runs (segmentation by 64-byte socket buffers); schedule space sampled",
                         f"bound for reaching communication: {BOUND} virtual seconds"]
